@@ -5,6 +5,9 @@ line `{"engine": ..., ...}`, one response per output line: `{"ok": {...}}` or
 -/
 import ZenoModel.Driver.SeqEngine
 import ZenoModel.Driver.StoreEngine
+import ZenoModel.Driver.RobustEngine
+import ZenoModel.Driver.HeapEngine
+import ZenoModel.Driver.PlanEngine
 import ZenoModel.Driver.CrashEngine
 import ZenoModel.Driver.CoalesceEngine
 import ZenoModel.Driver.QueryEngine
@@ -18,6 +21,9 @@ def dispatch (j : Json) : R Json := do
   match (← str j "engine") with
   | "seq" => seqEngine j
   | "store" => storeEngine j
+  | "robust" => robustEngine j
+  | "heap" => heapEngine j
+  | "plan" => planEngine j
   | "crash" => crashEngine j
   | "coalesce" => coalesceEngine j
   | "spec" => specEngine j
